@@ -386,6 +386,76 @@ fn histories(run: &Run, acc: &mut Acc, doc: &Value, depth: usize) {
     }
 }
 
+/// one variable, successive documents: a look-up that misses in the first document, then the variable is given the
+/// second document (as a whole, without going through `reference_mut`), then every node of the second document must
+/// be found. Document pairs = (d, d after one write that creates new locations).
+fn slot_histories(acc: &mut Acc, doc: &Value) {
+    let mut locs = vec![];
+    all_locs(doc, &mut vec![], &mut locs);
+    let writes = [json!([[1], {"n": 2}]), json!({"n": [1], "m": {"k": 1}})];
+    let mut slot = Value::Null;
+    for loc in locs.iter().skip(1).take(6) {
+        for w in &writes {
+            let d2 = match model_set(doc, loc, w) {
+                Some(d) => d,
+                None => continue,
+            };
+            let mut locs2 = vec![];
+            all_locs(&d2, &mut vec![], &mut locs2);
+            let fresh: Vec<&Loc> = locs2.iter().filter(|l| resolve(doc, l).is_none()).collect();
+            for miss in fresh.iter().take(4) {
+                let p = normpath(miss);
+                slot.clone_from(doc);
+                acc.transitions += 1;
+                let first = catch_unwind(AssertUnwindSafe(|| slot.reference(p.clone()).is_some()));
+                if !matches!(first, Ok(false)) {
+                    // a location that does not exist must not resolve: part (c) of the sweep reports that
+                    continue;
+                }
+                slot.clone_from(&d2);
+                let addr_locs: Vec<(usize, Loc)> = locs2.iter().map(|l| (addr(resolve(&slot, l).unwrap()), l.clone())).collect();
+                for l in &locs2 {
+                    acc.evals += 1;
+                    let q = normpath(l);
+                    match observe_ref(&slot, &q, &addr_locs) {
+                        Ok(Some(Some(got))) if &got == l => acc.nontrivial += 1,
+                        other => {
+                            // only report what a fresh copy of the second document resolves correctly (the rest is part (a)'s)
+                            let fresh_doc = d2.clone();
+                            let fl: Vec<(usize, Loc)> = locs2.iter().map(|l| (addr(resolve(&fresh_doc, l).unwrap()), l.clone())).collect();
+                            if matches!(observe_ref(&fresh_doc, &q, &fl), Ok(Some(Some(ref g))) if g == l) {
+                                acc.viol(
+                                    format!("a variable held {}; reference({}) found nothing there; the variable was then given {}; now reference({}) returns {:?} although that node exists (a fresh copy resolves it)", doc, p, d2, q, other.map(|o| o.map(|l| l.map(|l| normpath(&l))))),
+                                    json!({"kind": "ref-slot", "class": "one variable, successive documents", "first": doc, "miss": p, "second": d2, "path": q}),
+                                );
+                                return;
+                            }
+                        }
+                    }
+                }
+            }
+        }
+    }
+}
+
+pub fn replay_slot(case: &Value, _run: &Run) -> Acc {
+    let mut acc = Acc::new();
+    let mut slot = Value::Null;
+    slot.clone_from(&case["first"]);
+    let miss = case["miss"].as_str().unwrap_or("$").to_string();
+    let q = case["path"].as_str().unwrap_or("$").to_string();
+    let a = slot.reference(miss.clone()).is_some();
+    slot.clone_from(&case["second"]);
+    let b = slot.reference(q.clone()).map(|v| v.to_string());
+    let fresh = case["second"].clone();
+    let c = fresh.reference(q.clone()).map(|v| v.to_string());
+    println!("first document : {}\nreference({}) -> found: {}\nsecond document: {}\nreference({}) -> {:?} ; on a fresh copy -> {:?}", case["first"], miss, a, case["second"], q, b, c);
+    if b != c {
+        acc.viol(format!("reference({}) depends on the earlier miss: {:?} vs {:?} on a fresh copy", q, b, c), case.clone());
+    }
+    acc
+}
+
 /// operation sequences: `reference` / `reference_mut` are pure look-ups, so the result of a call must not depend
 /// on the calls made before it - in particular not on calls with paths the functions do not support
 /// (wildcards, slices, negative indices, descendants, filters, syntax errors), which must simply yield None
@@ -403,6 +473,26 @@ fn sequences(run: &Run, acc: &mut Acc, doc: &Value, depth: usize) {
         let p = normpath(l);
         for t in junk_tails {
             ops.push((format!("{}{}", p, t), None));
+        }
+    }
+    // shorthand spellings of existing locations, and of the same path with its last name cut short by one character
+    // (a string prefix of a path is not a prefix of the location)
+    for l in locs.iter().skip(1).take(8) {
+        if l.iter().all(|s| matches!(s, Step::Name(n) if crate::model::render::is_shorthand_name(n))) {
+            let sh: String = std::iter::once("$".to_string()).chain(l.iter().map(|s| if let Step::Name(n) = s { format!(".{}", n) } else { String::new() })).collect();
+            ops.push((sh.clone(), Some(l.clone())));
+            if let Some(Step::Name(last)) = l.last() {
+                if last.chars().count() >= 2 {
+                    let cut: String = last.chars().take(last.chars().count() - 1).collect();
+                    let mut l2 = l.clone();
+                    *l2.last_mut().unwrap() = Step::Name(cut);
+                    let sh2: String = std::iter::once("$".to_string()).chain(l2.iter().map(|s| if let Step::Name(n) = s { format!(".{}", n) } else { String::new() })).collect();
+                    let exp = resolve(doc, &l2).map(|_| l2.clone());
+                    // the cut path first, the full one after it
+                    let at = ops.len() - 1;
+                    ops.insert(at, (sh2, exp));
+                }
+            }
         }
     }
     ops.push(("".to_string(), None));
@@ -528,12 +618,13 @@ pub fn run(tier: &str) -> i32 {
         .reduce(Acc::new, Acc::merge);
     let mut seq_docs = docs::universe(1, 2, &[json!(1), json!("a")], &["b", "a"]);
     seq_docs.extend(docs::panel().into_iter().filter(|d| ser(d).len() < 120));
-    seq_docs.extend([json!({"a": {"b": 1, "c": [1, 2]}, "b": 2}), json!([[1, 2], {"a": [3]}]), json!({"a": {"a": {"a": 1}}})]);
+    seq_docs.extend([json!({"ab": {"cd": 1}, "b": 2}), json!({"cfg": {"name": "n"}, "items": [1]}), json!({"a": {"b": 1, "c": [1, 2]}, "b": 2}), json!([[1, 2], {"a": [3]}]), json!({"a": {"a": {"a": 1}}})]);
     let c = seq_docs
         .par_iter()
         .map(|d| {
             let mut acc = Acc::new();
             sequences(&run, &mut acc, d, if th { 3 } else { 2 });
+            slot_histories(&mut acc, d);
             acc.bump("documents_with_call_sequences", 1);
             acc
         })
@@ -541,7 +632,7 @@ pub fn run(tier: &str) -> i32 {
     let b = b.merge(c);
     run.finish(
         a.merge(b),
-        "node sweep: one case = (document, node location, operation) with operation in {reference, reference_mut + one of 5 written values} plus, per node, locations that do not exist (absent name, index = len, index into an object, name into an array, '0' vs 0); update histories: breadth-first search over the documents reached by sequences of writes through the paths of one initial `$..*` query (states = distinct documents, transitions = writes, each executed on the implementation and on the reference model); call sequences: every sequence of two (thorough: three) look-ups over an alphabet of existing paths and of paths the functions do not support (wildcard, slice, negative index, descendant, filter, syntax error), the last call compared with the same call made alone; non-trivial = operations on existing locations / sequences executed",
+        "node sweep: one case = (document, node location, operation) with operation in {reference, reference_mut + one of 5 written values} plus, per node, locations that do not exist (absent name, index = len, index into an object, name into an array, '0' vs 0); update histories: breadth-first search over the documents reached by sequences of writes through the paths of one initial `$..*` query (states = distinct documents, transitions = writes, each executed on the implementation and on the reference model); call sequences: every sequence of two (thorough: three) look-ups over an alphabet of existing paths and of paths the functions do not support (wildcard, slice, negative index, descendant, filter, syntax error), the last call compared with the same call made alone; one variable, successive documents: a miss in document d, the variable then holds d after a write that creates locations, every node of the new content must resolve; non-trivial = operations on existing locations / sequences executed",
         &["normalized paths are computed by the harness (RFC 9535 2.7) from node locations", "documents are compared as serialized text, i.e. including member order"],
         true,
         json!({"history_depth": depth}),
